@@ -301,6 +301,61 @@ OUTSIDE = ["zzzz", "Abandon", "ABANDON", "abandonn", "abando", "a", "0", "títul
 WHITESPACE = [" ", "  ", "\t", "\n", " \r\n", "\u3000", "\u2009", "\x1f", "\xa0 "]
 
 
+def short_lived_lists(c, en, rounds):
+    """C15 speaks of ANY 2048-word list: the answer for a list must come from the words it holds at the time of the
+    call, whatever lists were used before. Every round builds fresh list objects (rotations of the English list) inside
+    a function, uses them and drops them, so that a later list can occupy the address of an earlier one; one list is
+    also re-ordered in place between two calls. Expected values come from the harness's own BIP39 (spec_encode /
+    spec_decode) - a predicate on embit alone."""
+    rng = c.rng
+    bad = 0
+
+    def one(words, e, kind):
+        nonlocal bad
+        idx = {w: i for i, w in enumerate(words)}
+        want = " ".join(words[i] for i in spec_encode(e))
+        info = {"kind": kind, "entropy": e.hex(), "first_word": words[0]}
+        c.count(("short-lived", words[0], e, kind), nontrivial=True)
+        r = guarded(bip39.mnemonic_from_bytes, e, wordlist=words)
+        if r != ("ok", want):
+            bad += 1
+            c.fail("mnemonic_from_bytes with a freshly built word list differs from the BIP39 encoding over that list",
+                   dict(info, op="short-lived:from_bytes", impl=repr(r)[:200], spec=want))
+            return
+        back = guarded(bip39.mnemonic_to_bytes, want, wordlist=words)
+        if back[0] != "ok" or bytes(back[1]) != e:
+            bad += 1
+            c.fail("a phrase valid over the word list passed in is rejected or decoded to another entropy (word lists "
+                   "used by earlier calls must not matter)", dict(info, op="short-lived:to_bytes", mnemonic=want, impl=repr(back)[:200]))
+        v = guarded(bip39.mnemonic_is_valid, want, wordlist=words)
+        if v != ("ok", True):
+            bad += 1
+            c.fail("a phrase valid over the word list passed in is reported invalid", dict(info, op="short-lived:valid", mnemonic=want, impl=repr(v)))
+        # the same words judged against ANOTHER fresh list: valid exactly when BIP39 over that list says so
+        other = words[1:] + words[:1]
+        l2 = WL("tmp", other)
+        exp = spec_decode(want.split(" "), l2)
+        got = guarded(bip39.mnemonic_to_bytes, want, wordlist=other)
+        if (exp is None) != (got[0] != "ok") or (exp is not None and bytes(got[1]) != exp):
+            bad += 1
+            c.fail("a phrase is judged against a word list other than the one passed in", dict(info, op="short-lived:other-list", mnemonic=want, impl=repr(got)[:200], spec=exp.hex() if exp else None))
+
+    def fresh(k):
+        return en.words[k:] + en.words[:k]
+
+    for r in range(rounds):
+        e = rand_entropy(rng, rng.choice([16, 24, 32]))
+        one(fresh(rng.randrange(1, 2048)), e, "fresh")
+    # one caller-owned list, re-ordered in place between calls
+    own = fresh(7)
+    for r in range(max(2, rounds // 8)):
+        e = rand_entropy(rng, 16)
+        one(own, e, "own")
+        own.reverse()
+        one(own, e, "own-reversed-in-place")
+    c.tally("short-lived-lists:%d rounds, %d failures" % (rounds, bad))
+
+
 def rand_entropy(rng, n):
     r = rng.random()
     if n == 0:
@@ -568,6 +623,7 @@ def run(tier, seed):
     lists = load_lists(c)
     corpus(c, lists)
     vectors(c, lists)
+    short_lived_lists(c, lists[0], 60 if tier == "quick" else 600)
     if tier == "quick":
         explore(c, lists, 16, 16, False)
     else:
